@@ -48,7 +48,8 @@ def run(tier, seed):
         if sc.ignore_feature and xf["raws"] and xf["env"]:
             nm = xf["env"]["names"][sc.ignore_feature - 1]
             v = xf["raws"][-1]["imp"].get(nm, 0.0)
-            if abs(float(v)) > 1e-9:
+            # the tolerance follows the magnitude of the losses of the run (models / losses come in several scales)
+            if abs(float(v)) > 1e-9 * (1.0 + float(xf.get("max_loss", 0.0))):
                 ctx.violation("float.ignored_feature_zero", E._config_key(sc), "importance of ignored feature = %r" % v,
                               {"scenario": sc.to_json()})
     ctx.add_stage("float twin runs vs exact runs (importance, variance)", "float_twin", scenarios=nf)
